@@ -344,6 +344,77 @@ func init() {
 		Rule: "problems from ParseSliceNb / ParseCNF / ParseCardConstrs / ParsePBConstrs / ParseOPB (n<=8, odd clause shapes, trivially true/false constraints, parse-time Sat and Unsat), with or without cost function; printers: Problem.CNF() (propositional problems), Problem.PBString(), Solver.PBString() after 0..3 Solve/AppendClause/Minimize/Optimal steps (after an optimisation the solver also holds bounds on the cost: the models read back must then be models of the problem, with their cost), explain.Problem.CNF(); in a third of the cases the problem is printed after a solver made from it has solved / optimised it; each text must satisfy the harness's strict recogniser of its format, parse back without error, and the re-parsed problem (evaluated without solving, unmentioned variables free) must have exactly the original models over the original variables; costs compared on up to 3 drawn assignments by pinning them with unit constraints in the re-parsed text; non-trivial = rendering with units and non-unit constraints, or with a cost function"})
 }
 
+// HugeCase: one cardinality constraint over N variables (N beyond 100 000), printed on a single line of more than a
+// megabyte by PBString, plus a few clauses.
+type HugeCase struct {
+	N        int `json:"n"`
+	AtLeast  int `json:"at_least"`
+	NegEvery int `json:"neg_every"`
+}
+
+func genHuge(t *rapid.T) HugeCase {
+	n := gen.Uniform(t, 100_000, 160_000, "n")
+	return HugeCase{N: n, AtLeast: n/2 + gen.Uniform(t, 0, n/8, "slack"), NegEvery: gen.Uniform(t, 2, 5, "negEvery")}
+}
+
+func checkHuge(c HugeCase, o *vf.Obs) error {
+	lits := make([]int, c.N)
+	for i := range lits {
+		lits[i] = i + 1
+		if (i+1)%c.NegEvery == 0 {
+			lits[i] = -(i + 1)
+		}
+	}
+	holds := func(m []bool) bool {
+		cnt := 0
+		for _, l := range lits {
+			if (l > 0) == m[abs(l)-1] {
+				cnt++
+			}
+		}
+		return cnt >= c.AtLeast
+	}
+	pb := solver.ParseCardConstrs([]solver.CardConstr{{Lits: append([]int{}, lits...), AtLeast: c.AtLeast}})
+	txt := pb.PBString()
+	longest := 0
+	for _, l := range strings.Split(txt, "\n") {
+		if len(l) > longest {
+			longest = len(l)
+		}
+	}
+	o.ClassIf(longest > 1<<20, "line>1MiB")
+	if longest > 1<<20 {
+		o.Nontrivial()
+	}
+	pb2, err := solver.ParseOPB(texts.ReaderFor(txt))
+	if err != nil {
+		return fmt.Errorf("PBString of a cardinality constraint over %d variables (longest line %d bytes) cannot be read back: %v", c.N, longest, err)
+	}
+	if pb2.NbVars != c.N {
+		return fmt.Errorf("re-read problem has %d variables, the printed one %d", pb2.NbVars, c.N)
+	}
+	s := solver.New(pb2)
+	if st := s.Solve(); st != solver.Sat {
+		return fmt.Errorf("re-read problem: Solve = %v, the printed problem is satisfiable", st)
+	}
+	if m := s.Model(); len(m) != c.N || !holds(m) {
+		return fmt.Errorf("a model of the re-read problem does not satisfy the printed constraint (at least %d of %d literals)", c.AtLeast, c.N)
+	}
+	return nil
+}
+
+func abs(x int) int {
+	if x < 0 {
+		return -x
+	}
+	return x
+}
+
+func init() {
+	vf.Register(vf.Sub[HugeCase]{Name: "huge-constraint", Quick: 1, Thorough: 12, Gen: genHuge, Check: checkHuge, Floor: 0.9,
+		Rule: "one cardinality constraint 'at least N/2..5N/8 of N literals', N in 100 000..160 000, every 2nd..5th literal negated, through ParseCardConstrs; Problem.PBString() prints it on one line of more than a megabyte; the text must be read back by ParseOPB with the same number of variables, and a model of the re-read problem (the solver's default phase alone falsifies the constraint) must satisfy the printed constraint; non-trivial = a printed line of more than 1 MiB"})
+}
+
 func TestMain(m *testing.M)   { vf.Main(m, "C18") }
 func TestCorpus(t *testing.T) { vf.Corpus(t) }
 func TestProp(t *testing.T)   { vf.RunAll(t) }
